@@ -88,6 +88,7 @@ DEFAULTS = {'int': ['5', "'bad'", 'None'], 'str': ["'d'", '5'], 'float': ['1.5',
 def gen_class(r, idx):
     nf = r.randint(1, 4)
     sub = r.choice(['none', 'none', 'deco_sub', 'deco_sub'])
+    base_kind = r.choice(['same'] * 4 + ['untyped', 'plain']) if sub == 'deco_sub' else 'same'      # what the BASE of a type-safe subclass is
     ts = r.random() < 0.88
     slots = r.random() < 0.3
     order = r.random() < 0.2
@@ -104,6 +105,10 @@ def gen_class(r, idx):
         return r.choice(pool) if selfref and r.random() < 0.6 else r.choice(POOL)[0]
     fields = [(f'f{i}', ann(SELF_POOL_A)) for i in range(nf)]
     deco = '@frozen_type_safe_dataclass' if shortcut else f'@frozen_dataclass(type_safe={ts}, slots={slots}, order={order}' + ('' if kwonly else ', kw_only=False') + ')'
+    if base_kind == 'untyped':          # a frozen_dataclass base WITHOUT type_safe below a type-safe subclass: the subclass checks the inherited fields too
+        deco = f'@frozen_dataclass(type_safe=False, slots={slots}, order={order}' + ('' if kwonly else ', kw_only=False') + ')'
+    if base_kind == 'plain':            # a plain stdlib frozen dataclass as base
+        deco = f'@dataclasses.dataclass(frozen=True, slots={slots}, kw_only={kwonly})'
     lines = [deco, f'class {an}:']
     for n, a in fields:
         lines.append(f'    {n}: {a}{dflt(a)}')
@@ -118,6 +123,8 @@ def gen_class(r, idx):
     if sub == 'deco_sub':
         ns = r.randint(1, 2)
         own = [(f'g{i}', ann(SELF_POOL_B)) for i in range(ns)]
+        if base_kind != 'same':
+            ts = True
         lines += [f'@frozen_dataclass(type_safe={ts}, slots={slots}' + ('' if kwonly else ', kw_only=False') + ')', f'class {bn}({an}):']
         for n, a in own:
             lines.append(f'    {n}: {a}{dflt(a)}')
@@ -129,7 +136,7 @@ def gen_class(r, idx):
             lines += ['    def __post_init__(self):', f'        J.append(("post", {idx}))', '        raise PostErr()']
             post = 'raises'
         cls = bn
-        if own_post == 'absent' and ts:
+        if own_post == 'absent' and ts and base_kind == 'same':
             levels = 2          # the subclass inherits the wrapped __post_init__ of its base: two validating wrappers run
     if local:
         lines = ['def scope(op, build):', "    C1 = str     # decoy: the module's C1 must win", '    class Loc: pass'] + ['    ' + l for l in lines] + \
